@@ -227,8 +227,8 @@ def pre_decide(ae: int, o1: int, o2: int, ct: int, preset: int, k: int, streamed
 
 @harness(
     pre=pre_decide,
-    quick=dict(T=2, H=0, timeout=150, reach_timeout=150),
-    thorough=dict(T=6, H=1, timeout=1500, reach_timeout=90),
+    quick=dict(T=2, timeout=200, reach_timeout=150),
+    thorough=dict(T=6, timeout=1500, reach_timeout=90),
     nshards=dict(quick=12, thorough=12),
     reach=["encoded", "identity", "gzip_mentioned_by_solver", "head_of_encoded"],
     units=["web.GZipContentEncoding.__init__", "web.GZipContentEncoding._compressible_type",
@@ -242,6 +242,8 @@ def h_gzip_decide(ae: int, o1: int, o2: int, ct: int, preset: int, k: int, strea
     pre-set Content-Encoding / Vary, body just below / at the threshold, buffered vs streamed."""
     if P.reach in ("encoded", "gzip_mentioned_by_solver") and not (ae == 1 and preset == 0 and ct == 0 and k == 3):
         return      # reach-twin steering only (a necessary condition for the tag keeps the twin cheap)
+    if P.reach == "head_of_encoded" and not (ae == 1 and preset == 0 and ct == 0 and streamed):
+        return      # reach-twin steering only (necessary-condition pruning; the tag is raised after the real run)
     ct = DEC_CT[ct]
     pfx = AE_PREFIX[ae]
     value = None if pfx is None else pfx + chr(o1) + chr(o2)
